@@ -332,6 +332,10 @@ def run(p, report, tier):
     from . import c08
     c08.check_shrinking_pool(p, report, funcs, "R1.6")
 
+    from . import c20
+    sw = p.get_method("SubSamplingWrapper", "query")
+    c20.check_subsampling_translation(p, report, sw, sw.qual, FuncTree(sw.node), "R1.6")
+
     # ---- R1.8 ------------------------------------------------------------
     check_choice_replace(p, report, funcs, facts)
     report.assumptions += [
@@ -529,6 +533,25 @@ def check_exclusion_mechanisms(p, report, funcs, facts):
         ex_all = [(n, b, k) for (n, b, k) in ex if cond_context(tree, n if isinstance(n, ast.stmt) else tree.stmt_of(n), L, counters) <= s_ctx]
         partial = bool(ex) and not ex_all
         ex = ex_all
+        # a mask that is overwritten by a later store into the same array
+        # before the selection does not exclude anything
+        overwritten = []
+        kept = []
+        for (n, b, k) in ex:
+            n_st = n if isinstance(n, ast.stmt) else tree.stmt_of(n)
+            ow = None
+            if k == "M1" and dominates(tree, n_st, s_stmt):
+                for m in ast.walk(L):
+                    if isinstance(m, ast.Assign) and m is not n_st and dominates(tree, n_st, m) and dominates(tree, m, s_stmt) \
+                            and any(isinstance(t, ast.Subscript) and base_name(t) == b for t in m.targets) \
+                            and ast.unparse(m.value).replace(" ", "") not in EXCL_VALUES \
+                            and not (index_names(m.targets[0]) & picks):
+                        ow = m
+            (overwritten if ow is not None else kept).append((n, b, k))
+        if ex and not kept:
+            partial = False
+        ex_overwritten = bool(ex) and not kept
+        ex = kept
         via_callee = False
         if not ex:
             for st in ast.walk(L):
@@ -565,7 +588,9 @@ def check_exclusion_mechanisms(p, report, funcs, facts):
             ("M3: zero sampling mass at distance-to-selected" if sampling_m3 else ""))
         report.add("R1.4m", ent, construct, f"{f.file}:{S.lineno}", okm,
                    detail=("exclusion mechanism " + mech) if okm else
-                   ("the exclusion of earlier picks happens only on some paths to the selection (inside a branch the "
+                   ("the mask of earlier picks is overwritten by a later store into the same array before the selection"
+                    if ex_overwritten else
+                    "the exclusion of earlier picks happens only on some paths to the selection (inside a branch the "
                     "selection is not under)" if partial else
                     "earlier picks are not excluded by a mask (NaN/0/False store indexed by the picks) or by shrinking "
                     "the pool; relying on distances/cluster cells alone fails for duplicated points and empty cells"))
